@@ -25,13 +25,13 @@ const (
 // Ob is one obligation: a rule instance evaluated on one construct of the repository.
 // Construct never contains a line number, so findings stay keyed across unrelated edits.
 type Ob struct {
-	Rule       string  `json:"rule"`
-	Construct  string  `json:"construct"`
-	Pos        string  `json:"pos"`
-	Text       string  `json:"text"`
-	Verdict    Verdict `json:"verdict"`
-	Detail     string  `json:"detail,omitempty"`
-	Nontrivial bool    `json:"nontrivial"`
+	Rule       string   `json:"rule"`
+	Construct  string   `json:"construct"`
+	Pos        string   `json:"pos"`
+	Text       string   `json:"text"`
+	Verdict    Verdict  `json:"verdict"`
+	Detail     string   `json:"detail,omitempty"`
+	Nontrivial bool     `json:"nontrivial"`
 	Path       []string `json:"path,omitempty"`
 }
 
